@@ -44,18 +44,26 @@ def to_py(t):
     raise ValueError(k)
 
 
-def expand(t):
+def expand(t, lazy=False):
     """Full expansion of 'N' nodes with the textbook simultaneous instantiation (R3).
-    Raises T.Abort when the instantiation itself is illegal (constraint/capture)."""
+    Raises T.Abort when the instantiation itself is illegal (constraint/capture).
+    lazy=True: arguments whose key does not occur in the definition are not expanded (they are
+    not part of the denoted pattern); the strict form is what the machine executes, because the
+    serialiser constructs every argument."""
     k = t[0]
     if k in ('e', 's', 'y', 'm'): return t
-    if k in ('i', 'a'): return (k, expand(t[1]), expand(t[2]))
-    if k in ('E', 'M'): return (k, t[1], expand(t[2]))
-    if k in ('es', 'ss'): return (k, expand(t[1]), t[2], expand(t[3]))
+    if k in ('i', 'a'): return (k, expand(t[1], lazy), expand(t[2], lazy))
+    if k in ('E', 'M'): return (k, t[1], expand(t[2], lazy))
+    if k in ('es', 'ss'): return (k, expand(t[1], lazy), t[2], expand(t[3], lazy))
     if k == 'N':
-        ids = [i for i, _ in t[2]]
-        plugs = [expand(a) for _, a in t[2]]
-        return T.instantiate(expand(t[1]), ids, plugs)
+        body = expand(t[1], lazy)
+        args = t[2]
+        if lazy:
+            used = set(m[1] for m in T.metavars(body))
+            args = [(i, a) for i, a in args if i in used]
+        ids = [i for i, _ in args]
+        plugs = [expand(a, lazy) for _, a in args]
+        return T.instantiate(body, ids, plugs)
     raise ValueError(k)
 
 
@@ -80,8 +88,8 @@ def from_py(p):
     raise ValueError(type(p))
 
 
-def py_expand(p):
-    return expand(from_py(p))
+def py_expand(p, lazy=False):
+    return expand(from_py(p), lazy)
 
 
 class SymMap:
